@@ -1120,10 +1120,15 @@ class Action:
 
         opath = [el for el in opath.split(delim) if el] # strip extra : at start or end
 
-        if fwd:
+        try:
             value = self.expandEnvironmentalVariable(value, Eups.verbose)
-            if value is None:
-                return
+        except RuntimeError:
+            if fwd:
+                raise
+            # when unwinding, a reference that can no longer be expanded is used as written
+
+        if value is None:
+            return
 
         if delim in value:
             if Eups.verbose > 1:
